@@ -506,6 +506,35 @@ func runScenario(d *driver, kind string) {
 			d.round(li2)
 			d.round(li2)
 		}
+	case "hugecrash":
+		// monitors-only probe: ONE round whose staging bundle exceeds 16 MiB uncompressed (18 entries of 1 MiB) crashes
+		// right after its compare-and-swap; the restart must recover the committed tree from that bundle, whatever its
+		// size (seed C03-7: a decompression cap sized for "a full data tile" applied to the staging bundle too)
+		li := d.boot(0)
+		d.submitSome(li, 1)
+		d.round(li)
+		d.round(li)
+		for k := 0; k < 18; k++ {
+			e := d.newEntry()
+			big := make([]byte, 1<<20)
+			copy(big, fmt.Sprintf("huge%04d-%d", d.nEntry, k))
+			for i := 32; i < len(big); i += 64 {
+				big[i] = byte(i >> 6) // compressible, not constant
+			}
+			e.Certificate = big
+			d.submit(li, e, false)
+		}
+		d.stats["hugecrash-bundle-mib"] += 18
+		d.crashWithin(li, 2) // staging upload, compare-and-swap, then dead
+		d.round(li)
+		if !d.alive(li) {
+			li = d.restart(li, true)
+		}
+		if li != nil && d.alive(li) {
+			d.submitSome(li, 2)
+			d.round(li)
+			d.round(li)
+		}
 	case "tamperissuer":
 		// an issuer object is ALTERED (not deleted) between two runs; the restarted instance is then sent several
 		// submissions that chain to it, one after the other, a resubmission among them: every one of them finds the
